@@ -445,7 +445,7 @@ def _prune(root, keep, protect, prefix=""):
         now = time.time()
         for old in ds[keep:]:
             # never touch a run another concurrent check may still be reading
-            if old != protect and now - os.path.getmtime(old) > 2 * 3600:
+            if old != protect and now - os.path.getmtime(old) > 45 * 60:
                 shutil.rmtree(old, ignore_errors=True)
     except OSError:
         pass
